@@ -452,8 +452,10 @@ failure lies strictly BEFORE that event:
 * it was accepted into a context that had ALREADY failed (`acceptedAfterCause`: the cause precedes
   `hacc h`) — the implementation runs such a task detached from its owner (finding KF-C16-1:
   `scope.NewChild` does not register a child of a scope that is done), the model never needs this case;
-* a handler submission of this try was refused: the clause of `hrej` demands a cause in the ROOT context
-  before it (the manager refuses submissions once the root scope is done; the try goroutine then stops).
+* a handler submission of this try was refused: the clause of `hrej` demands a cause in the handler's
+  (= the owner's) or the root context before it (the manager refuses submissions once the root scope
+  is done — in the model that is the only reason, `Props/C16.handlers_submitted_after_body` — and, once
+  finding KF-C16-1 is repaired, submissions into a scope that is done; the try goroutine then stops).
 A failure that happens later — in particular a failure of another handler of the same try after
 this one could have started — excuses nothing: an event-order condition, not an end-of-trace one. -/
 def handlerFate (g : Graph) (pre : List Ev) (y h : Nat) : Prop :=
@@ -503,7 +505,7 @@ def Ok (g : Graph) (pre : List Ev) : Ev → Prop
   | .root ok => hasMwait pre ∧
       (if ok then ∀ u ∈ List.range g.n, Ev.done u false ∈ pre → g.ctx u ≠ 0 else causeIn g 0 pre)
   | .hacc h => isHandler g h = true ∧ submitted g pre h
-  | .hrej h => isHandler g h = true ∧ submitted g pre h ∧ causeIn g 0 pre
+  | .hrej h => isHandler g h = true ∧ submitted g pre h ∧ causeFor g pre h
   | .stall t => isHandler g t = true ∧ causeFor g pre t
 
 /-- second group of clauses: an error report is *exactly* a task of that context having closed with
